@@ -15,6 +15,7 @@ import (
 	"sort"
 	"strconv"
 	"sync"
+	"time"
 	"unsafe"
 
 	"github.com/xinchentechnote/fin-proto-go/codec"
@@ -431,6 +432,33 @@ func (e *env) run(st Step) (res Result) {
 		}
 		if !out[0].IsNil() {
 			res.Ret = reflect.TypeOf(out[0].Interface()).Elem().Name()
+		}
+	case "lockprobe":
+		// is a lock of the module's discriminator tables still held (leaked by an earlier step)? every public
+		// Registry...Factory function is called with an unused key; one that does not return within 2 s hangs
+		done := make(chan struct{})
+		go func() {
+			for _, fn := range registrars[st.Module] {
+				fv := reflect.ValueOf(fn)
+				kt, ft := fv.Type().In(0), fv.Type().In(1)
+				k := reflect.New(kt).Elem()
+				switch kt.Kind() {
+				case reflect.String:
+					k.SetString("\xff\xfe")
+				case reflect.Uint8, reflect.Uint16, reflect.Uint32, reflect.Uint64:
+					k.SetUint(uint64(1)<<uint(kt.Bits()) - 15)
+				case reflect.Int8, reflect.Int16, reflect.Int32, reflect.Int64:
+					k.SetInt(-15)
+				}
+				f := reflect.MakeFunc(ft, func([]reflect.Value) []reflect.Value { return []reflect.Value{reflect.Zero(ft.Out(0))} })
+				fv.Call([]reflect.Value{k, f})
+			}
+			close(done)
+		}()
+		select {
+		case <-done:
+		case <-time.After(2 * time.Second):
+			res.Note = "hang"
 		}
 	case "registry":
 		return e.registryOps(st)
